@@ -1162,3 +1162,6 @@ benign_patch("refactor_write_block_single_emit", "benign/set2_refactor12.diff", 
 benign_patch("refactor_db_iterator_seek_else_branch", "benign/set2_refactor13.diff", note='DatabaseIterator::seek / seek_to_first: early return -> else branch')
 benign_patch("refactor_writer_temporaries_inlined", "benign/set2_refactor14.diff", note='writers.rs: struct literal and guard temporaries inlined')
 benign_patch("refactor_bloom_min_max_assignments", "benign/set2_refactor15.diff", note='BloomFilterPolicy: cmp::min/max instead of if-assignments')
+
+mut("cache_id_read_then_write", ["C13", "C05"], "OWN-10", patch="cache_id_read_then_write.diff",
+    note="tables opened concurrently can share a block-cache partition id and serve each other's blocks")
